@@ -17,6 +17,35 @@ use crate::signer::{remote_key_pair, Bus, SeamHook, SignCall, SignerFault};
 pub enum Custody {
     Local(Loader),
     Remote,
+    /// loaded locally (through the nearest loader the build offers) where the build has a
+    /// crypto back end, held behind the remote signer where it has none
+    Native(Loader),
+}
+
+/// The nearest loader this build offers for a loader named in a build-independent trace.
+pub fn nearest_loader(l: Loader) -> Loader {
+    let mut l = l;
+    if !cfg!(feature = "aws_lc_rs") {
+        l = match l {
+            Loader::LegacyDerAlgo => Loader::DerAlgo,
+            Loader::LegacyDerAuto => Loader::PrivateKeyDerAuto,
+            Loader::LegacySliceAuto => Loader::SliceAuto,
+            Loader::LegacyPemAlgo => Loader::PemAlgo,
+            Loader::LegacyPemAuto => Loader::PemAuto,
+            x => x,
+        };
+    }
+    if !cfg!(feature = "pem") {
+        l = match l {
+            Loader::PemAuto => Loader::SliceAuto,
+            Loader::Pkcs8PemAlgo => Loader::Pkcs8DerAlgo,
+            Loader::PemAlgo => Loader::DerAlgo,
+            Loader::LegacyPemAlgo => Loader::LegacyDerAlgo,
+            Loader::LegacyPemAuto => Loader::LegacyDerAuto,
+            x => x,
+        };
+    }
+    l
 }
 
 #[derive(Clone, Debug, PartialEq, Eq, Serialize, Deserialize)]
@@ -64,7 +93,7 @@ pub struct KeyHandle {
 impl KeyHandle {
     /// Algorithms this key may legitimately sign with, given how it entered rcgen.
     pub fn allowed_algs(&self) -> Vec<Alg> {
-        let auto = matches!(self.custody, Custody::Local(l) if l.is_auto());
+        let auto = matches!(self.custody, Custody::Local(l) | Custody::Native(l) if l.is_auto());
         if auto && self.sim.alg.is_rsa() {
             vec![Alg::RsaSha256, Alg::RsaSha384, Alg::RsaSha512]
         } else {
@@ -72,7 +101,7 @@ impl KeyHandle {
         }
     }
     pub fn is_remote(&self) -> bool {
-        self.custody == Custody::Remote
+        self.custody == Custody::Remote || (matches!(self.custody, Custody::Native(_)) && !cfg!(feature = "crypto"))
     }
 }
 
@@ -134,7 +163,13 @@ impl World {
         let mut keys = Vec::new();
         for (i, s) in slots.iter().enumerate() {
             let sim = Arc::new(SimKey::from_spec(&s.spec));
-            let kp = match &s.custody {
+            let effective = match &s.custody {
+                Custody::Native(l) if cfg!(feature = "crypto") => Custody::Local(nearest_loader(*l)),
+                Custody::Native(_) => Custody::Remote,
+                c => c.clone(),
+            };
+            let kp = match &effective {
+                Custody::Native(_) => unreachable!(),
                 Custody::Remote => remote_key_pair(i, sim.clone(), bus.clone(), hook.clone()),
                 #[cfg(feature = "crypto")]
                 Custody::Local(l) => match guarded(|| crate::keys::load_local(&sim, *l)) {
@@ -411,6 +446,12 @@ pub fn gen_slots(r: &mut Rng, cfg: &GenCfg) -> Vec<KeySlotSpec> {
 /// Seeded issuance workload; keeps a count of issuer slots that will exist if everything
 /// succeeds so that later operations can refer to them.
 pub fn gen_ops(r: &mut Rng, nkeys: usize, n_ops: usize, crypto: bool) -> Vec<Op> {
+    gen_ops_for(r, nkeys, n_ops, crypto, cfg!(feature = "x509-parser"))
+}
+
+/// Like `gen_ops`, with the capabilities given explicitly instead of taken from this
+/// build's features (for traces that several differently built nodes must derive alike).
+pub fn gen_ops_for(r: &mut Rng, nkeys: usize, n_ops: usize, crypto: bool, x509: bool) -> Vec<Op> {
     use crate::recipe::*;
     let sw = Swarm::draw(r, crypto);
     let mut ops = Vec::new();
@@ -428,7 +469,7 @@ pub fn gen_ops(r: &mut Rng, nkeys: usize, n_ops: usize, crypto: bool) -> Vec<Op>
             2 | 3 => Op::Issue {
                 issuer: r.usize(issuers),
                 subject: r.usize(nkeys),
-                via: if cfg!(feature = "x509-parser") && r.chance(1, 3) { SubjectVia::Spki } else { SubjectVia::KeyPair },
+                via: if x509 && r.chance(1, 3) { SubjectVia::Spki } else { SubjectVia::KeyPair },
                 recipe: gen_cert(r, &sw),
                 store: false,
             },
@@ -438,7 +479,7 @@ pub fn gen_ops(r: &mut Rng, nkeys: usize, n_ops: usize, crypto: bool) -> Vec<Op>
                 Op::Issue { issuer: i, subject: r.usize(nkeys), via: SubjectVia::KeyPair, recipe: gen_ca_cert(r, &sw), store: true }
             }
             5 | 6 => Op::Csr { key: r.usize(nkeys), recipe: gen_csr_cert(r, &sw), attrs: gen_attrs(r) },
-            7 if cfg!(feature = "x509-parser") => {
+            7 if x509 && crypto => {
                 // what CSR import supports: SANs, key usages, standard EKUs
                 let mut c = gen_csr_cert(r, &sw);
                 c.serial = None;
